@@ -18,6 +18,8 @@ RULE = ('cases = full product of the condition alphabet x all hit histories (eac
         'length bound x fire_count in {1,2} x action kinds, plus expression alphabet x {watch, log, metric, label} and '
         'all ordered watch pairs; a case is non-trivial when the guarded clause is exercised: the condition rejected '
         'at least one hit and accepted another, a budget was exhausted, or an expression resolved a non-local name / failed')
+RULE_ADDED = 'rounds 3-5: failures whose exception has no usable text or traceback; pairs for log / metric / label sources; sampling conditions (asked once per hit); an unbound local next to a same-named global'
+RULE = RULE + ' ; ' + RULE_ADDED
 ASSUMPTIONS = ['only boolean-valued or failing conditions are in the alphabet (truthiness of other values is not defined by the statement)',
                'an error result is WatchResult.error (a watch whose *value* is an exception object is a good result of that type)']
 
